@@ -124,6 +124,8 @@ def verdict(rep):
         bad.append('blocked_in_call_%s' % rep['blocked_call'])
     if rep.get('total_timeout'):
         bad.append('hang_or_spin')
+    if rep.get('runaway'):
+        bad.append('runaway_more_than_20000_syscalls')
     if rep.get('signals'):
         bad.append('signal_' + '_'.join(map(str, rep['signals'])))
     if rep.get('term_sig'):
@@ -172,7 +174,11 @@ def run(ck):
         b = verdict(t)
         if b:
             ck.violation('C03:%s:cfg=%s:no_fault' % ('+'.join(b), n), {'config': cfg[n], 'report': {k: t.get(k) for k in ('signals', 'exit_code', 'term_sig', 'blocked_call', 'result')}, 'sanitizer': t['san'][:1]})
-        for c in t['calls']:
+        if b:
+            continue          # already violated without any fault: no point in enumerating faults on a broken baseline
+        if len(t['calls']) > 800:
+            ck.capped = True
+        for c in t['calls'][:800]:
             if c['name'] in SKIP:
                 continue
             for dev in menu(c['name'], ck.tier):
